@@ -648,6 +648,7 @@ type gramResult struct {
 	SlotTerms map[string]map[string]string // "Kind.Slot" -> terminal stored there -> a rule that does it
 	MaybeNil  map[string]string            // "Kind.Slot" (vertex slot) -> a rule that embeds a node of that kind whose slot is not known to be filled
 	AnyEmbeds int                          // embeddings of nodes whose kind is unknown to the abstract interpreter (no nil information)
+	TokNoChild map[string]string           // "Kind.TokenSlot|ChildSlot" -> a rule that embeds a node with the token present while the child is not known to be present
 }
 
 func (g *gramCtx) obName(gp *gramParser, rule *yRule, class, what string) string {
@@ -663,7 +664,7 @@ type gramWant struct {
 }
 
 func (g *gramCtx) checkGrammar(c *CheckCtx, gp *gramParser, want gramWant) *gramResult {
-	res := &gramResult{Name: gp.Name, PairSigs: map[string][]string{}, SlotTerms: map[string]map[string]string{}, MaybeNil: map[string]string{}}
+	res := &gramResult{Name: gp.Name, PairSigs: map[string][]string{}, SlotTerms: map[string]map[string]string{}, MaybeNil: map[string]string{}, TokNoChild: map[string]string{}}
 	for _, p := range gp.Problems {
 		c.addOb("internal/"+gp.Name+"/table/grammar-file-matches-generated-parser: "+p, "table", "", false, p)
 	}
@@ -821,6 +822,31 @@ func (g *gramCtx) checkGrammar(c *CheckCtx, gp *gramParser, want gramWant) *gram
 					k := a.T.Obj().Name() + "." + f.Name()
 					if _, seen := res.MaybeNil[k]; !seen {
 						res.MaybeNil[k] = fmt.Sprintf("%s rule %d %s", gp.Name, rule.Num, rule.LHS)
+					}
+				}
+				// a token that is present while a child slot is not known to be present (C17: the formatter may leave a
+				// companion token alone only if it is absent whenever its child is)
+				for i := 0; i < st.NumFields(); i++ {
+					tf := st.Field(i)
+					if classifySlot(tf.Type()) != "token" || !a.NonNilF[tf.Name()] {
+						continue
+					}
+					for j := 0; j < st.NumFields(); j++ {
+						cf := st.Field(j)
+						absent := false
+						switch classifySlot(cf.Type()) {
+						case "vertex":
+							absent = !a.NonNilF[cf.Name()]
+						case "vertices":
+							absent = !a.NonEmpty[cf.Name()]
+						}
+						if !absent {
+							continue
+						}
+						k := a.T.Obj().Name() + "." + tf.Name() + "|" + cf.Name()
+						if _, seen := res.TokNoChild[k]; !seen {
+							res.TokNoChild[k] = fmt.Sprintf("%s rule %d %s", gp.Name, rule.Num, rule.LHS)
+						}
 					}
 				}
 			}
